@@ -28,6 +28,7 @@ type Options struct {
 	HarnessDir     string
 	Overlay        map[string][]byte
 	Tier           string
+	Mid            bool          // thorough tier: intermediate bounds (retry of a variant that exceeded its budget)
 	ForceQuick     bool          // thorough tier fallback: this harness runs at the quick bounds
 	WallBudget     time.Duration // exploration of one harness stops (Truncated) after this long; 0 = no limit
 	Variant        int           // thorough tier: which focus variant of a harness is being explored
